@@ -77,6 +77,11 @@ func (s *State) deltaNames(name string) bool {
 
 // get returns the current term for name (of the given sort).
 func (s *State) get(name string, sort Sort) Term {
+	if s.vc.heapSorts != nil {
+		if _, known := s.vc.heapSorts[name]; !known && len(name) > 2 && name[1] == '$' && name[0] == 'F' {
+			s.vc.heapSorts[name] = sort
+		}
+	}
 	if t, ok := s.writes[name]; ok {
 		return t
 	}
